@@ -27,7 +27,8 @@ KINDS = ["normal", "zeros", "zero_channel", "huge_one", "tiny", "positive", "neg
 
 
 def thresholds(tier):
-  return {"events.binary": 300, "events.ternary": 200, "scale_checked": 200,
+  return {"live.pytest_runs": 1, "live.elements": 27,
+          "events.binary": 300, "events.ternary": 200, "scale_checked": 200,
           "groups_checked": 150, "po2_checked": 80, "threshold_rule_checked": 150,
           "distinct_nontrivial": 600}
 
@@ -101,9 +102,17 @@ def cases(tier, seed):
   rnd.shuffle(out)
   if tier == "quick":
     out = out[:6000]
+  for c in out:
+    if c["cls"] in ("binary", "ternary") and not c.get("observe"):
+      r = rnd.random()
+      if c["kw"].get("alpha") == "auto_po2" and r < 0.3:
+        c["route"] = "trainable"       # alpha=None + _set_trainable_parameter(), as every Q layer does
+      elif r < 0.45:
+        c["route"] = "mutate"          # built with another alpha, used once, alpha re-assigned
   for i, c in enumerate(out):
     c["idx"], c["seed"] = i, seed
-  return out
+  from vf import live
+  return live.cases(tier, "bt") + out
 
 
 def make_tensor(case, rng, thres=None):
@@ -144,6 +153,9 @@ def sig_of(case):
 
 
 def run_case(case, ctx):
+  if isinstance(case, dict) and case.get("part") == "live":
+    from vf import live
+    return live.run(case, ctx)
   from vf import qenv
   import tensorflow as tf
   cls, kw = case["cls"], dict(case["kw"])
@@ -151,9 +163,12 @@ def run_case(case, ctx):
   rng = np.random.default_rng(case["seed"] * 65537 + case["idx"])
   thres_cfg = kw.get("threshold")
   x = make_tensor(case, rng, thres_cfg if thres_cfg is not None else 0.33)
-  ok, q = ctx.call(base, qenv.build, {"cls": cls, "kw": kw})
+  ok, q = ctx.call(base, qenv.build, {"cls": cls, "kw": kw, "route": case.get("route"),
+                                      "seed": case["seed"], "idx": case["idx"]})
   if not ok:
     return
+  if case.get("route"):
+    ctx.count("route." + case["route"])
   if case.get("observe"):
     try:
       y = qenv.call(q, x)
